@@ -14,7 +14,7 @@ META = {
             "database; H3 nothing reachable from a query or an Analysis method touches fs/env/time/process/thread/rand; H4 every "
             "iteration over a RandomState-hashed collection in query-reachable code feeds only order-insensitive consumers, is "
             "sorted afterwards, or matches a reviewed entry whose consumer signature is unchanged; raw intern ids are used only in "
-            "dependency_order_query; H5 definitions are interned only in module_scope_with_map_query. One obligation per site.",
+            "dependency_order_query; H5 definitions are interned only in module_scope_with_map_query. One obligation per site. H6 no equality reachable from a salsa query value compares an insertion-ordered container (IndexMap/IndexSet) with its order-insensitive ==: salsa back-dates on equality, so dependents would keep the old order.",
     "explanation": "Decides that every answer is a function of the salsa inputs alone and that no hidden iteration order leaks "
                    "into answers: the necessary structural conditions for history-independence and determinism. Equality of answers "
                    "across histories itself needs executions and is not decided; salsa's incremental correctness is trusted.",
@@ -258,6 +258,26 @@ def run(F, res, tier):
            "an order or a graph-node index taken from them differs between a fresh analysis and one with a history)", not raw,
            where="crates/ide/src", how="no InternId::as_u32/as_usize/from(number) outside the InternKey impls" if not raw else
            "raw id reads/constructions: %s" % sorted(set(raw))[:6])
+    # ... nor orders ids: min/max/cmp/sort instantiated at InternId or at an interned-key type
+    keytypes = set()
+    for p_ in F.fns:
+        m_ = re.match(r"^<(.+) as salsa::(?:interned::)?InternKey>::as_intern_id$", p_)
+        if m_:
+            keytypes.add(m_.group(1))
+    ordered = []
+    for p_, f in sorted(F.fns.items()):
+        if not in_query_crates(p_) or not f.blocks or f.d.get("impl_trait"):
+            continue
+        for b, t in f.calls():
+            full = (t.get("fn") or {}).get("full", "") or ""
+            if not (("cmp::" in full and re.search(r"cmp::(min|max|Ord|PartialOrd|Reverse)", full)) or re.search(r"::(sort|sort_by_key|sort_unstable|binary_search)\b", full)):
+                continue
+            targs = " ".join((t.get("fn") or {}).get("targs") or [])
+            if "salsa::InternId" in targs or "salsa::intern_id::InternId" in targs or any(re.search(r"(^|[ <,(&])" + re.escape(k) + r"($|[ >,)])", targs) for k in keytypes):
+                ordered.append((p_, t["ln"], FL.short(callee(t) or callee_def(t))))
+    res.ob("H4", "intern-ids-unordered", "query code never orders intern ids (min/max/cmp/sort on InternId or on an interned key): which of two ids is "
+           "smaller depends on which query ran first", not ordered, where="crates/ide/src",
+           how="no ordering operation on ids" if not ordered else "ordering on ids: %s" % ordered[:4])
     keys = [p_ for p_, f in F.fns.items() if "salsa::interned::InternKey>::as_intern_id" in p_ or "InternKey>::as_intern_id" in p_]
     res.floor("InternKey impls in crate ide (the intern machinery the rule is about exists)", len(keys), 5)
     # ---- H5
@@ -271,3 +291,58 @@ def run(F, res, tier):
            how="%d intern calls" % len(ic) if not outside and not via_trait else "outside: %s via Intern::intern: %s" % (outside, via_trait))
     res.floor("intern calls in module_scope_with_map_query (positive control)",
               sum(1 for x in ic if x[0] == "ide::def::scope::module_scope_with_map_query"), 5)
+    value_equality_rules(F, res)
+
+
+def value_equality_rules(F, res, rule="H6"):
+    """salsa keeps the *dependents'* memoised values when a recomputed value compares equal to the old one (back-dating). So the
+    equality of a query value must distinguish everything a consumer can observe of it - in particular the order of an
+    insertion-ordered container (IndexMap / IndexSet equality ignores order, their iteration exposes it)."""
+    import re as _re
+    shims = [p for p in F.fns if p.endswith("::__shim")]
+    res.floor("salsa query shims", len(shims), 38)
+    roots = set()
+    for p in shims:
+        for m in _re.finditer(r"\b((?:ide|syntax)::[A-Za-z0-9_:]+)", F.fns[p].local_ty(0) or ""):
+            roots.add(m.group(1))
+    eq_of = {}
+    for p in F.fns:
+        m = _re.match(r"^<((?:ide|syntax)::[A-Za-z0-9_:]+)(?:<.*>)? as core::cmp::PartialEq>::eq$", p)
+        if m:
+            eq_of[m.group(1)] = p
+    seen, st, via = set(), [], {}
+    for t in sorted(roots):
+        if t in eq_of:
+            st.append(eq_of[t])
+            via[eq_of[t]] = [t]
+    bad = []
+    while st:
+        p = st.pop()
+        if p in seen:
+            continue
+        seen.add(p)
+        f = F.fns[p]
+        for q in [p] + list(F.closures_of(p)):
+            for b, t in F.fns[q].calls():
+                c = callee(t) or callee_def(t) or ""
+                full = (t.get("fn") or {}).get("full") or c
+                if _re.search(r"indexmap::(map::IndexMap|set::IndexSet)<.*as core::cmp::PartialEq", c) or \
+                        _re.search(r"<indexmap::(map::IndexMap|set::IndexSet)<.*as core::cmp::PartialEq", full):
+                    bad.append((via[p], f.loc(t["ln"]), full))
+                # equality of a component type
+                for m in _re.finditer(r"\b((?:ide|syntax)::[A-Za-z0-9_:]+)", full):
+                    e = eq_of.get(m.group(1))
+                    if e and e not in seen and "PartialEq" in full:
+                        via[e] = via[p] + [m.group(1)]
+                        st.append(e)
+    res.floor("PartialEq impls reachable from query values", len(seen), 96)
+    keys = sorted({"/".join(v) for v, _, _ in bad})
+    for k in keys:
+        where = [w for v, w, _ in bad if "/".join(v) == k][0]
+        res.ob(rule, "value-eq-order/%s" % k.replace("ide::", ""), "the equality salsa uses to back-date this query value distinguishes the iteration "
+               "order of its insertion-ordered maps (otherwise a reordering edit leaves dependents with the old order: answers differ from a "
+               "fresh analysis)", False, where=where, how="derived PartialEq compares an IndexMap/IndexSet field with the container's own "
+               "order-insensitive `==`")
+    res.ob(rule, "value-eq-order", "no equality reachable from a salsa query value compares an insertion-ordered container (IndexMap / IndexSet) "
+           "with its order-insensitive `==`", not bad, where="crates/ide/src/def/scope.rs",
+           how="%d query value types, %d PartialEq impls followed; offending: %s" % (len(roots), len(seen), keys))
